@@ -1,6 +1,7 @@
 package synch
 
 import (
+	"errors"
 	"context"
 	"fmt"
 	"strings"
@@ -8,6 +9,7 @@ import (
 	"testing/synctest"
 	"time"
 
+	"github.com/celestiaorg/go-header"
 	hsync "github.com/celestiaorg/go-header/sync"
 
 	"verifharness/mbt"
@@ -110,7 +112,7 @@ func TestTail(t *testing.T) {
 				}
 			}
 			var startErr error
-			func() {
+			start := func() {
 				defer func() {
 					if r := recover(); r != nil {
 						rec.Obs.Kind = "panic"
@@ -120,7 +122,63 @@ func TestTail(t *testing.T) {
 				ctx, cancel := context.WithTimeout(bg, time.Minute)
 				defer cancel()
 				startErr = n.sy.Start(ctx)
-			}()
+			}
+			switch {
+			case mbt.Bool(in, "retry"):
+				// replay-only variant: the first single-header request of the peers fails (a dropped connection); Start reports
+				// that, and is simply called again — what is computed and stored in the end is the same
+				failed := false
+				n.get.byHFn = func(gc gcall) (*vh.Header, error) {
+					if !failed {
+						failed = true
+						return nil, errors.New("scripted: peer disconnected")
+					}
+					if h := netChain.At(gc.H); h != nil {
+						return h, nil
+					}
+					return nil, header.ErrNotFound
+				}
+				start()
+				if failed && startErr != nil && rec.Obs.Kind == "" {
+					start()
+				}
+			case mbt.Bool(in, "concHead"):
+				// replay-only variant: a second caller asks for Head() while Start is still fetching the tail header (the
+				// request is held); it gets a header or an error, and Start then finishes as if it had been alone
+				hold := make(chan struct{})
+				held := false
+				n.get.byHFn = func(gc gcall) (*vh.Header, error) {
+					if !held {
+						held = true
+						<-hold
+					}
+					if h := netChain.At(gc.H); h != nil {
+						return h, nil
+					}
+					return nil, header.ErrNotFound
+				}
+				done := make(chan struct{})
+				go func() { defer close(done); start() }()
+				synctest.Wait()
+				if held {
+					func() {
+						defer func() {
+							if r := recover(); r != nil {
+								rec.Obs.Kind = "panic"
+								rec.Obs.Msg = "second Head() caller: " + fmt.Sprint(r)
+							}
+						}()
+						ctx, cancel := context.WithTimeout(bg, time.Minute)
+						defer cancel()
+						_, _ = n.sy.Head(ctx)
+					}()
+				}
+				close(hold)
+				<-done
+				n.get.byHFn = nil
+			default:
+				start()
+			}
 			time.Sleep(30 * time.Minute) // virtual: lets the sync loop (if any) finish
 			synctest.Wait()
 			if rec.Obs.Kind == "" {
